@@ -38,8 +38,9 @@ class RSLV:
 
 
 class Instance:
-    def __init__(self, tr, m, cname, params):
+    def __init__(self, tr, m, cname, params, method_values=None):
         self.tr, self.params, self.cache = tr, dict(params), {}
+        self.method_values = dict(method_values or {})      # methods whose result is declared to be a parameter
         self.mro = tr.linearize(m, cname)          # [(Module, ClassDef)] most derived first
 
     def method(self, name):
@@ -250,6 +251,8 @@ class InstTranslator(Translator):
         return self.body(clo.m, node, env, None, {})
 
     def call_method(self, bm, argv):
+        if bm.node.name in bm.inst.method_values:
+            return bm.inst.method_values[bm.node.name]
         params = [a.arg for a in bm.node.args.args][1:]
         if len(argv) != len(params):
             raise Opaque("method %s called with %d arguments" % (bm.node.name, len(argv)))
@@ -282,17 +285,21 @@ class InstTranslator(Translator):
                 return self.stmt_expr(m, st.value, env, fctx, lits)
             elif isinstance(st, ast.Expr) and isinstance(st.value, ast.Constant):
                 continue
+            elif (isinstance(st, ast.If) and not st.orelse and isinstance(st.test, ast.Compare) and len(st.test.ops) == 1 and isinstance(st.test.ops[0], ast.Is)
+                  and isinstance(st.test.comparators[0], ast.Constant) and st.test.comparators[0].value is None and isinstance(st.test.left, ast.Name)
+                  and isinstance(env.get(st.test.left.id), V)):
+                continue          # `if x is None: ...` with x a number: the guard does not fire
             else:
                 raise Opaque("statement %s" % type(st).__name__)
         raise Opaque("no return")
 
     # ---------------------------------------------------------------- entry point
-    def rsl_of(self, dotted, cname, method, params):
+    def rsl_of(self, dotted, cname, method, params, method_values=None):
         """-> dict part -> expression (or None) of the RSL the method returns, in z and the parameters"""
         m = self.mod(dotted)
         if m is None:
             raise Opaque("module %s not found" % dotted)
-        inst = Instance(self, m, cname, params)
+        inst = Instance(self, m, cname, params, method_values)
         bm = inst.method(method)
         if bm is None:
             raise Opaque("no method %s" % method)
@@ -351,15 +358,20 @@ TARGETS = [
     ("yadism.coefficient_functions.asy.%s_cc" % k, "AsyGluon", "NLO", {"L": V(("arg", 0))}) for k in ("f2", "fl", "f3")
 ] + [
     ("yadism.coefficient_functions.asy.%s_cc" % k, "AsyQuark", "LO", {"L": V(("arg", 0))}) for k in ("f2", "f3")
+] + [
+    # asymptotic intrinsic channels: args[0] = L, args[1] = the LO delta coefficient of the light class (self.lo_local())
+    ("yadism.coefficient_functions.asy.partonic_channel", cls, "NLO", {"L": V(("arg", 0))}, {"lo_local": V(("arg", 1))})
+    for cls in ("PartonicChannelAsyLLIntrinsic", "PartonicChannelAsyNLLIntrinsicMatching")
 ]
 
 
 if __name__ == "__main__":
     import sys, pyk2coq
     tr = InstTranslator(sys.argv[1] if len(sys.argv) > 1 else "/repo")
-    for dotted, cname, meth, params in TARGETS:
+    for tgt in TARGETS:
+        dotted, cname, meth, params = tgt[:4]
         try:
-            r = tr.rsl_of(dotted, cname, meth, params)
+            r = tr.rsl_of(dotted, cname, meth, params, tgt[4] if len(tgt) > 4 else None)
             print(dotted.split(".")[-1], cname, meth, {p: (None if e is None else pyk2coq.size(e)) for p, e in r.items()})
         except Opaque as e:
             print(dotted.split(".")[-1], cname, meth, "OPAQUE:", e)
@@ -373,9 +385,10 @@ def inst_kernels(repo):
     """-> list of (dotted, class, method, {'reg','sing','loc' -> expr|None} | ('opaque', reason))"""
     tr = InstTranslator(repo)
     out = []
-    for dotted, cname, meth, params in TARGETS:
+    for tgt in TARGETS:
+        dotted, cname, meth, params = tgt[:4]
         try:
-            out.append((dotted, cname, meth, tr.rsl_of(dotted, cname, meth, params)))
+            out.append((dotted, cname, meth, tr.rsl_of(dotted, cname, meth, params, tgt[4] if len(tgt) > 4 else None)))
         except Opaque as e:
             out.append((dotted, cname, meth, ("opaque", str(e))))
         except RecursionError:
